@@ -28,7 +28,9 @@ SRC = [
 ]
 # every way of asking for the backup protocol
 SPELLINGS = [["--backup"], ["--backup", "--emit", "files"], ["--emit", "files", "--backup"], ["--emit=files", "--backup"],
-             ["--config", "make_backup=true"]]
+             ["--config", "make_backup=true"],
+             # backups asked for by the configuration FILE given on the command line (cfgdir/ is not an ancestor of the sources)
+             ["--config-path", "cfgdir/rustfmt.toml"]]
 
 
 def rustfmt(args, cwd, env=None, timeout=60):
@@ -109,6 +111,8 @@ def run(tier, seed, replay):
         os.makedirs(d)
         for s, t in zip(stems, c["texts"]):
             open(os.path.join(d, s + ".rs"), "w", newline="", encoding="utf-8").write(t)
+        os.makedirs(os.path.join(d, "cfgdir"))
+        open(os.path.join(d, "cfgdir", "rustfmt.toml"), "w").write("make_backup = true\n")
         env = {}
         c["flags"] = SPELLINGS[ci % len(SPELLINGS)]
         if c["mode"] == "abort":
